@@ -81,9 +81,13 @@ def deep(tr, emissions: int = 0) -> dict:
         s = tr.segmentation
         seg = (str(s.dtype), tuple(s.shape), hashlib.sha1(np.ascontiguousarray(s).tobytes()).hexdigest())
     pk = tr.features.position_key
+    # leftover values of annotator-managed features that are currently disabled are not
+    # part of the tracks' state (nobody reads them, enabling recomputes them); actions
+    # restore registered features only, so a rolled-back sub-edit may drop them
+    stale = {k for k, (_, on) in tr.annotators.all_features.items() if not on}
     d = {
-        "nodes": {n: {k: _deep_val(v) for k, v in dd.items()} for n, dd in g.nodes(data=True)},
-        "edges": {(u, v): {k: _deep_val(x) for k, x in dd.items()} for u, v, dd in g.edges(data=True)},
+        "nodes": {n: {k: _deep_val(v) for k, v in dd.items() if k not in stale} for n, dd in g.nodes(data=True)},
+        "edges": {(u, v): {k: _deep_val(x) for k, x in dd.items() if k not in stale} for u, v, dd in g.edges(data=True)},
         "seg": seg,
         "scale": None if tr.scale is None else ("seq", tuple(float(x) for x in tr.scale)),
         "ndim": tr.ndim,
